@@ -96,7 +96,37 @@ def run_assignment(rule_name, node, direct, attrs_spec, items, case):
     if (ff is not None) != bool(exp):
         probs.append(problem("fail_fast_wrong", case, expected="raises" if exp else "returns None",
                              observed=repr(ff), rule=rule_name, mode="fail-fast"))
+    # the same through a Rule object that is re-used for every assignment of this rule, and into a list that already
+    # holds another node's entry
+    robj = _REUSED.get(rule_name)
+    if robj is None:
+        robj = _REUSED[rule_name] = mrule.Rule(rule_name)
+        _REUSED["other"] = _REUSED.get("other") or Node("zzOtherNode", id="other")
+    pre = [(ValidationError.ATTRIBUTE_REQUIRED, "earlier entry of another node", _REUSED["other"], "zz")]
+    try:
+        errs2 = list(pre)
+        robj.validate_rule(node, errs2)
+        r_exc = None
+        try:
+            robj.validate_rule(node)
+        except MetapypeRuleError as e:
+            r_exc = e
+    except Exception as e:  # noqa
+        probs.append(problem("foreign_exception", case, expected="None or rule error", observed=repr(e),
+                             rule=rule_name, mode="reused-rule", exc=type(e).__name__))
+        return probs, exp
+    obs2 = Counter((e[0].name, e[3]) for e in errs2[1:] if isinstance(e, tuple) and len(e) >= 4)
+    if errs2[:1] != pre or obs2 != exp:
+        probs.append(problem("attribute_errors_wrong", case, expected=sorted([list(k) + [n] for k, n in exp.items()]),
+                             observed=sorted([list(map(str, k)) + [n] for k, n in obs2.items()]), rule=rule_name,
+                             mode="reused-rule+prefilled-list"))
+    if (r_exc is not None) != bool(exp):
+        probs.append(problem("fail_fast_wrong", case, expected="raises" if exp else "returns None", observed=repr(r_exc),
+                             rule=rule_name, mode="reused-rule"))
     return probs, exp
+
+
+_REUSED = {}
 
 
 def work(item):
